@@ -28,6 +28,19 @@ def main() -> int:
     ap.add_argument("--replay", default=None)
     args = ap.parse_args()
     prop = args.prop.upper()
+    if args.replay:
+        # a replay file names the tier and seed of the run that produced it (violation_<tier>_<seed>.json); every case of
+        # a check is a deterministic function of (property, tier, seed), so re-running that configuration reproduces it
+        import json
+        import re
+        m = re.search(r"_(quick|thorough)_(\d+)\.json$", str(args.replay))
+        if m:
+            args.tier, args.seed = m.group(1), int(m.group(2))
+        try:
+            rp = json.loads(Path(args.replay).read_text())
+            print(f"replaying {args.replay}: {str(rp.get('what') or rp.get('kind'))[:300]}")
+        except Exception:  # noqa: BLE001
+            pass
     try:
         mod = importlib.import_module(prop.lower())
     except ModuleNotFoundError:
